@@ -187,6 +187,8 @@ void OPNMIDIplay::partialReset()
     realTime_panic();
     m_setup.tick_skip_samples_delay = 0;
     synth.m_runAtPcmRate = m_setup.runAtPcmRate;
+    if(!synth.setupLocked())
+        synth.m_numChips = m_setup.numChips; // An emulator that limits the chip count (the VGM dumper) must not limit its successors
     synth.reset(m_setup.emulator, m_setup.PCM_RATE, synth.chipFamily(), this);
     m_chipChannels.clear();
     m_chipChannels.resize(synth.m_numChannels);
